@@ -26,7 +26,7 @@ func main() {
 	if p := ev.Arg("replay"); p != "" {
 		// a replay file names its scenario; try each part until one knows it
 		for _, part := range parts {
-			part = strings.TrimPrefix(part, "+")
+			part = strings.TrimLeft(part, "+=")
 			cmd := exec.Command(filepath.Join(binDir(), "c12-"+part), "--replay", p)
 			cmd.Env = append(os.Environ(), "VERIF_AS=C12", "VERIF_PART="+part)
 			out, _ := cmd.CombinedOutput()
@@ -42,13 +42,20 @@ func main() {
 	perPart := map[string]any{}
 	failed := false
 	for _, part := range parts {
-		tier := r.Tier
+		tier, full := r.Tier, ""
 		if strings.HasPrefix(part, "+") {
-			// a part marked '+' always runs its quick-tier scenario set (its thorough set belongs to its own property's thorough check)
+			// a part marked '+' always runs its (reduced) quick-tier scenario set: its thorough set belongs to its own property's thorough check
 			part, tier = part[1:], "quick"
+		} else if strings.HasPrefix(part, "=") {
+			// a part marked '=' runs, in the thorough tier, its full quick-tier scenario set (not the reduced one): its own
+			// thorough set takes 12-15 minutes per part even without the tracker
+			part = part[1:]
+			if tier == "thorough" {
+				tier, full = "quick", "1"
+			}
 		}
 		cmd := exec.Command(filepath.Join(binDir(), "c12-"+part), "--tier", tier)
-		cmd.Env = append(os.Environ(), "VERIF_AS=C12", "VERIF_PART="+part)
+		cmd.Env = append(os.Environ(), "VERIF_AS=C12", "VERIF_PART="+part, "VERIF_PART_FULL="+full)
 		out, err := cmd.CombinedOutput()
 		for _, l := range strings.Split(string(out), "\n") {
 			if strings.HasPrefix(l, "VIOLATION") || strings.HasPrefix(l, "KNOWN-FINDING") || strings.HasPrefix(l, "  ") || strings.HasPrefix(l, "ENGINE-ERROR") {
